@@ -172,10 +172,8 @@ class MailboxSystem:
         assert len(sched.threads) == self.ntid
         if warmup:
             # run every mailbox thread up to its first lock acquisition (thread-local code only)
-            for tid in range(S + 1):
-                sched.step(tid)
-            if case["killer"] >= 0:
-                sched.step(S + 1)
+            todo = iter(list(range(S + 1)) + ([S + 1] if case["killer"] >= 0 else []))
+            sched.run_driver(lambda s: next(todo, None))
             del sched.schedule[:]
 
     def observe(self):
@@ -207,7 +205,107 @@ class MailboxSystem:
                 "closed": self.mb.closed, "killed": self.mb.killed}
 
 
+class DividerSystem:
+    """strax.divide_outputs feeding several mailboxes (implementation only; not modelled in Coq).
+    case = {"type": "divider", "lazy": bool, "cap": int|None, "subs": [[can_drive,...] per mailbox],
+            "n": number of dicts produced, "flow_freely": [mailbox indices]}
+    Thread ids: 0 the divider, then the subscribers mailbox by mailbox."""
+
+    def __init__(self, sched, case):
+        self.sched, self.case = sched, case
+        sched.patch(strax.mailbox)
+        names = ["d%d" % j for j in range(len(case["subs"]))]
+        self.names = names
+        self.mbs = {}
+        for d in names:
+            mb = strax.Mailbox(name=d, timeout=BIG_TIMEOUT, lazy=case["lazy"])
+            mb.max_messages = case["cap"] if case["cap"] is not None else float("inf")
+            mb.log.disabled = True
+            self.mbs[d] = mb
+
+        def source():
+            for i in range(case["n"]):
+                yield {d: 100 * j + i for j, d in enumerate(names)}
+
+        self.div = sched.threading.Thread(
+            target=strax.divide_outputs, args=(source(),),
+            kwargs=dict(mailboxes=self.mbs, lazy=case["lazy"],
+                        flow_freely=tuple(names[j] for j in case["flow_freely"]), outputs=tuple(names)),
+            name="divide_outputs")
+        self.logs = []
+        self.owner = []
+
+        def subscriber(src, log):
+            for x in src:
+                log.append(x)
+
+        for j, d in enumerate(names):
+            for can_drive in case["subs"][j]:
+                log = []
+                self.logs.append(log)
+                self.owner.append(j)
+                self.mbs[d].add_reader(partial(subscriber, log=log), can_drive=bool(can_drive))
+        self.div.start()
+        for d in names:
+            self.mbs[d].start()
+        self.ntid = len(sched.threads)
+        todo = iter(range(self.ntid))
+        sched.run_driver(lambda s: next(todo, None))       # every thread up to its first yield point
+        del sched.schedule[:]
+
+    def observe(self):
+        s = self.sched
+        return ([CODE[s.status(t)] for t in range(self.ntid)], [list(l) for l in self.logs],
+                [len(self.mbs[d]._mailbox) for d in self.names])
+
+    def final_info(self):
+        s = self.sched
+        return {"status": [s.status(t) for t in range(self.ntid)],
+                "exc": [type(t.exc).__name__ if t.exc is not None else None for t in s.threads],
+                "logs": [list(l) for l in self.logs],
+                "closed": [self.mbs[d].closed for d in self.names],
+                "killed": [self.mbs[d].killed for d in self.names]}
+
+
+def divider_failure(case, res):
+    """C05 on divide_outputs: every target mailbox's subscribers receive that mailbox's component of
+    every dict, in order; eager mailboxes stay within capacity; no deadlock; everything ends."""
+    n = case["n"]
+    owner = None
+    for i, (codes, logs, nbox) in enumerate(res.obs):
+        if owner is None:
+            owner = []
+            for j, subs in enumerate(case["subs"]):
+                owner += [j] * len(subs)
+        for q, log in enumerate(logs):
+            exp = [100 * owner[q] + k for k in range(n)]
+            if log != exp[:len(log)]:
+                return "after step %d subscriber %d of mailbox %d has %s, not a prefix of %s" % (
+                    i, q, owner[q], log, exp)
+        if case["cap"] is not None and any(b > case["cap"] for b in nbox):
+            return "after step %d mailbox sizes %s exceed the capacity %d" % (i, nbox, case["cap"])
+    if res.outcome == "deadlock":
+        return "deadlock: threads %s are alive and none can run" % (
+            [t for t, st in enumerate(res.system_info["status"]) if st == "blocked"],)
+    if res.outcome == "limit":
+        return "the run did not terminate within the step limit"
+    if res.outcome == "complete":
+        info = res.system_info
+        for t, (st, exc) in enumerate(zip(info["status"], info["exc"])):
+            if st == "dead":
+                return "thread %d died with %s" % (t, exc)
+        for q, log in enumerate(info["logs"]):
+            j = [jj for jj, subs in enumerate(case["subs"]) for _ in subs][q]
+            if log != [100 * j + k for k in range(n)]:
+                return "subscriber %d of mailbox %d finished with %s" % (q, j, log)
+        if not all(info["closed"]) or any(info["killed"]):
+            return "mailboxes not closed / killed at the end: %s" % info
+    return None
+
+
 def system_factory(case):
+    if case.get("type") == "divider":
+        return lambda sched: DividerSystem(sched, case)
     return lambda sched: MailboxSystem(sched, case)
 
 
@@ -376,13 +474,14 @@ def exec_task(task):
         rng = random.Random(task["seed"])
         for r in random_walks(fac, rng, task["n"], sticky=task.get("sticky", 0.0)):
             results.append(r)
-    valid = valid_case(case)
+    divider = case.get("type") == "divider"
+    valid = True if divider else valid_case(case)
     out = {"kind": kind, "case": case, "runs": len(results), "steps": sum(len(r.schedule) for r in results),
            "truncated": truncated, "graph": graph, "outcomes": {}, "disagreements": [], "failures": [],
            "nontrivial": 0, "valid": valid, "hashes": [], "sample": None}
     for r in results:
         out["outcomes"][r.outcome] = out["outcomes"].get(r.outcome, 0) + 1
-    bad = compare_with_model(case, results) if task.get("compare", True) else []
+    bad = compare_with_model(case, results) if (task.get("compare", True) and not divider) else []
     for idx, what in bad[:3]:
         r = results[idx]
         d = {"schedule": r.schedule, "what": what, "impl_obs": r.obs, "outcome": r.outcome}
@@ -395,13 +494,16 @@ def exec_task(task):
     nfail = 0
     for r in results:
         if valid:
-            f = property_failure(case, r)
+            f = divider_failure(case, r) if divider else property_failure(case, r)
             if f:
                 nfail += 1
                 if len(out["failures"]) < 2:
                     out["failures"].append({"schedule": r.schedule, "what": f, "outcome": r.outcome,
                                             "final": r.system_info})
-        if r.outcome in ("complete", "deadlock") and _nontrivial(case, r):
+        if divider:
+            if r.outcome == "complete" and any(1 in o[0] for o in r.obs):
+                out["nontrivial"] += 1
+        elif r.outcome in ("complete", "deadlock") and _nontrivial(case, r):
             out["nontrivial"] += 1
     out["n_failures"] = nfail
     if kind == "random":
@@ -561,6 +663,30 @@ def build_tasks(ctx):
     add("dfs", mk_case(1, False, [True], 2, killer=1), bound=b, max_runs=cap_runs, weight=10 ** 6)
     add("dfs", mk_case(2, False, [True], 3, numbers=[1, 0, 2]), bound=b, max_runs=cap_runs, weight=10 ** 6)
 
+    # (2b) divide_outputs feeding 2..3 mailboxes (implementation only: property predicates, no model)
+    def div(lazy, cap, subs, n, ff=()):
+        return {"type": "divider", "lazy": bool(lazy), "cap": cap, "subs": subs, "n": n, "flow_freely": list(ff),
+                "drives": [d for ss in subs for d in ss], "items": [None] * n, "nfut": 0, "killer": -1}
+    dcases = [div(0, 1, [[1], [1]], 2), div(0, 2, [[1], [1, 1]], 2), div(0, 1, [[1], [1], [1]], 1),
+              div(1, None, [[1], [1]], 2), div(1, None, [[1], [0]], 2, ff=(1,)), div(1, None, [[1, 0], [1]], 2),
+              div(1, 2, [[1], [1]], 2), div(1, None, [[1], [0], [1]], 1, ff=(1,))]
+    for c in dcases:
+        add("dfs", c, bound=(2 if big else 1), max_runs=(30000 if big else 1500), weight=10 ** 6, compare=False)
+    for _ in range(40 if big else 12):
+        nmb = rng.randint(2, 3)
+        lazy = rng.random() < 0.5
+        subs, ff = [], []
+        for j in range(nmb):
+            k = rng.randint(1, 2)
+            if lazy and j > 0 and rng.random() < 0.4:
+                ff.append(j)
+                subs.append([0] * k)
+            else:
+                subs.append([1] + [rng.randint(0, 1) if lazy else 1 for _ in range(k - 1)])
+        c = div(lazy, None if (lazy and rng.random() < 0.7) else rng.randint(1, 3), subs, rng.randint(0, 4), ff)
+        add("random", c, n=(300 if big else 80), seed=rng.getrandbits(48), sticky=rng.choice([0.0, 0.5, 0.8]),
+            weight=10 ** 5, compare=False)
+
     # (3) seeded random walks over the whole range of the property
     n_cases = 400 if big else 90
     n_walks = 400 if big else 120
@@ -592,6 +718,9 @@ def build_tasks(ctx):
 
 
 def _tag(case):
+    if case.get("type") == "divider":
+        return "divider subs%s n%d cap%s %s ff%s" % (case["subs"], case["n"], case["cap"],
+                                                     "lazy" if case["lazy"] else "eager", case["flow_freely"])
     return "S%d N%d cap%s %s%s%s%s" % (
         len(case["drives"]), len(case["items"]), case["cap"], "lazy" if case["lazy"] else "eager",
         " fut%d" % case["nfut"] if case["nfut"] else "", " kill%d" % case["killer"] if case["killer"] >= 0 else "",
@@ -675,7 +804,12 @@ def run(ctx):
             oc[k] = oc.get(k, 0) + v
         c = r["case"]
         rb = dist.setdefault("runs_by", {})
-        for key in ("S%d" % len(c["drives"]), "N%d" % len(c["items"]), "cap%s" % c["cap"],
+        if c.get("type") == "divider":
+            rb["divider"] = rb.get("divider", 0) + r["runs"]
+            keys = ()
+        else:
+            keys = None
+        for key in keys if keys is not None else ("S%d" % len(c["drives"]), "N%d" % len(c["items"]), "cap%s" % c["cap"],
                     "lazy" if c["lazy"] else "eager", "futures" if c["nfut"] else "plain",
                     "killer" if c["killer"] >= 0 else "nokill",
                     "numbered" if any(it[0] >= 0 for it in c["items"]) else "inorder",
@@ -693,7 +827,8 @@ def run(ctx):
         if r["sample"] and (kind != "cover" or len(ctx.coverage["samples"]) < 4):
             ctx.sample(r["sample"])
         for f in r["failures"]:
-            ctx.violation("mailbox", "strax.Mailbox violates C05 (%s): %s" % (_tag(c), f["what"]),
+            ctx.violation("divider" if c.get("type") == "divider" else "mailbox",
+                          "strax.Mailbox violates C05 (%s): %s" % (_tag(c), f["what"]),
                           {"input": {"case": c, "schedule": f["schedule"]}, "outcome": f["outcome"],
                            "final": f["final"]})
         if r["n_disagreements"]:
@@ -756,7 +891,8 @@ def coq_tid(case, t):
 
 
 def kernel_crosscheck(ctx, tasks, results):
-    picks = [r["sample"] for r in results if r["sample"] and len(r["sample"]["schedule"]) <= 60]
+    picks = [r["sample"] for r in results if r["sample"] and len(r["sample"]["schedule"]) <= 60
+             and r["case"].get("type") != "divider"]
     if not picks:
         return
     picks = [picks[i] for i in sorted(ctx.rng.sample(range(len(picks)), min(40, len(picks))))]
@@ -781,10 +917,18 @@ def replay(ctx, obj):
     inp = r.get("input") if isinstance(r.get("input"), dict) else r
     case, schedule = inp["case"], inp["schedule"]
     res = run_schedule(system_factory(case), schedule)
+    if case.get("type") == "divider":
+        f = divider_failure(case, res)
+        print("case:", _tag(case), "schedule:", schedule)
+        print("outcome:", res.outcome, "final:", res.system_info)
+        print("property:", f or "holds on this schedule")
+        shutdown_pool()
+        return 1 if f else 0
     f = property_failure(case, res) if valid_case(case) else None
     bad = compare_with_model(case, [res])
     print("case:", _tag(case), "schedule:", schedule)
     print("outcome:", res.outcome, "final:", res.system_info)
     print("model comparison:", bad[0][1] if bad else "agrees")
     print("property:", f or "holds on this schedule")
+    shutdown_pool()
     return 1 if f else 0
